@@ -200,6 +200,9 @@ func (in *Interp) binop(op token.Token, l, r Val, t types.Type, st *State, pos t
 	if (l.FromB || r.FromB) && v.K == kConst {
 		v.FromB = true
 	}
+	if v.K == kTop && ((l.K == kTop && l.Stale) || (r.K == kTop && r.Stale)) {
+		v.Stale = true
+	}
 	return v
 }
 
@@ -298,9 +301,11 @@ func (in *Interp) evalIndex(x *ast.IndexExpr, st *State) []evalRes {
 				switch {
 				case ir.v.A >= 0:
 					ir.st.notes = append(ir.st.notes, "index out of range: "+f+"[len"+"+] at "+in.prog.Pos(x.Pos()))
+					ir.st.panicked = ir.st.notes[len(ir.st.notes)-1]
 					out = append(out, evalRes{ir.st, panicVal()})
 				case stk.Empty:
 					ir.st.notes = append(ir.st.notes, "index out of range: "+f+" is empty at "+in.prog.Pos(x.Pos()))
+					ir.st.panicked = ir.st.notes[len(ir.st.notes)-1]
 					out = append(out, evalRes{ir.st, panicVal()})
 				case ir.v.A == -1:
 					out = append(out, evalRes{ir.st, stk.Top})
@@ -325,6 +330,7 @@ func (in *Interp) evalIndex(x *ast.IndexExpr, st *State) []evalRes {
 					if i, ok := idx.isInt(); ok {
 						if i < 0 || int(i) >= len(s) {
 							ir.st.notes = append(ir.st.notes, "index out of range ["+idx.String()+"] with length "+itoa(len(s))+" at "+in.prog.Pos(x.Pos()))
+							ir.st.panicked = ir.st.notes[len(ir.st.notes)-1]
 							out = append(out, evalRes{ir.st, panicVal()})
 						} else {
 							out = append(out, evalRes{ir.st, vConstInt(int64(s[i]))})
@@ -335,7 +341,12 @@ func (in *Interp) evalIndex(x *ast.IndexExpr, st *State) []evalRes {
 						ir.st.readStale = append(ir.st.readStale, in.prog.Pos(x.Pos())+" index")
 					}
 					// unknown index into a constant string: any of its bytes, or a panic
-					ir.st.notes = append(ir.st.notes, "unknown-index:"+in.prog.Pos(x.Pos()))
+					if base.T == 0 || !(idx.K == kTop && idx.NonNeg && len(s) >= 256) {
+						pn := ir.st.clone()
+						pn.notes = append(pn.notes, "index out of range: "+types.ExprString(x)+" with an index that is not bounded at "+in.prog.Pos(x.Pos()))
+						pn.panicked = pn.notes[len(pn.notes)-1]
+						out = append(out, evalRes{pn, panicVal()})
+					}
 					out = append(out, evalRes{ir.st, vTop})
 					continue
 				}
@@ -356,6 +367,7 @@ func (in *Interp) evalIndex(x *ast.IndexExpr, st *State) []evalRes {
 							oor := ir.st.clone()
 							if oor.remAtMost(p - 1) {
 								oor.notes = append(oor.notes, "index out of range: buf[off"+signed(p)+"] beyond len(buf) at "+in.prog.Pos(x.Pos()))
+								oor.panicked = oor.notes[len(oor.notes)-1]
 								out = append(out, evalRes{oor, panicVal()})
 							}
 						}
@@ -443,6 +455,7 @@ func (in *Interp) evalSlice(x *ast.SliceExpr, st *State) []evalRes {
 					// buf[lo:hi] needs hi <= len(buf) (cap is not len: bytes past len are stale)
 					if hi.st.cur >= 0 && (hi.st.remLo < hi.v.A-1) {
 						hi.st.notes = append(hi.st.notes, "buffer slice upper bound off"+signed(hi.v.A)+" may exceed len(buf) at "+in.prog.Pos(x.Pos()))
+						hi.st.panicked = hi.st.notes[len(hi.st.notes)-1]
 						ok = false
 					}
 				default:
@@ -597,6 +610,7 @@ func (in *Interp) evalBuiltin(name string, x *ast.CallExpr, st *State) []evalRes
 	case "panic":
 		for _, r := range in.eval(x.Args[0], st) {
 			r.st.notes = append(r.st.notes, "explicit panic at "+in.prog.Pos(x.Pos()))
+			r.st.panicked = r.st.notes[len(r.st.notes)-1]
 			out = append(out, evalRes{r.st, panicVal()})
 		}
 		return out
